@@ -485,7 +485,8 @@ inductive FKind
 deriving DecidableEq, Repr, Inhabited
 
 inductive PClass
-  | ok        -- compiles, never raises
+  | ok        -- compiles, never raises, writes at least one byte per input
+  | okq       -- compiles, never raises, may write nothing (`empty`)
   | fnum      -- compiles, raises exactly on number inputs
   | fall      -- compiles, raises on every input
   | nc        -- does not compile
@@ -642,6 +643,9 @@ def optEval (ot : OTypes) (w : World) (r : R) : Except Unmodelled (Unit ⊕ Opts
   -- options.jq:181-189 filenames; `[]` ⇒ `[null]` = stdin
   let files := if exprFile.isSome then r.rest else r.rest.drop 1
   let filenames : List (Option Str) := if files.isEmpty then [none] else files.map some
+  -- options.jq:190-199: `--repl` without input files means null input (added last, so it wins over -n / -o)
+  let repl := isTrue p "repl"
+  if files.isEmpty && repl then nullInput := true
   return .inr {
     exprFile := exprFile
     exprArg := if exprFile.isSome then none else r.rest.head?
@@ -649,7 +653,7 @@ def optEval (ot : OTypes) (w : World) (r : R) : Except Unmodelled (Unit ⊕ Opts
     nullInput := nullInput
     slurp := slurp
     stringInput := stringInput
-    repl := isTrue p "repl"
+    repl := repl
     showHelp := isTrue p "show_help"
     showVersion := isTrue p "show_version"
     decodeGroup := decodeGroup }
@@ -661,6 +665,7 @@ structure Pred where
   fatal : Bool           -- one `error: …` line of a `_fatal_error`
   defaultMode : Bool     -- inputs are fed one by one to a compiled program: the independence predicate applies
   files : List (Option Str)
+  pc : PClass := .unknown  -- the program's class (default mode): `.okq` programs may legitimately print nothing
 deriving Repr
 
 /-- class-level environment: contents are file kinds, values are value classes -/
@@ -691,7 +696,6 @@ def mainModel (t : Table) (c : Codes) (ot : OTypes) (w : World) (argv : List Str
     match ← optEval ot w r with
     | .inl () => return { exit := c.args, errs := [], fatal := true, defaultMode := false, files := [] }
     | .inr o =>
-      if o.repl then throw (.mk "repl")
       if o.showHelp || o.showVersion then                                   -- :195-214
         return { exit := 0, errs := [], fatal := false, defaultMode := false, files := [] }
       let fmt ← match w.tok o.decodeGroup with
@@ -721,7 +725,7 @@ def mainModel (t : Table) (c : Codes) (ot : OTypes) (w : World) (argv : List Str
           | none => throw (.mk "no world entry for expr")
         | none, none => pure PClass.ok                                      -- default expr "."
       if pc = .unknown then throw (.mk "program of unknown class")
-      if pc = .nc then                                                       -- :137-141 halts before any input
+      if pc = .nc && !o.repl then                                            -- :137-141 halts before any input
         return { exit := c.compile, errs := [], fatal := true, defaultMode := false, files := [] }
       let names := o.filenames.map nameOf
       -- unknown file kinds are outside the model
@@ -731,6 +735,22 @@ def mainModel (t : Table) (c : Codes) (ot : OTypes) (w : World) (argv : List Str
           | none => throw (.mk "no world entry for input file")
           | some tk => if tk.fk = .unknown && !o.nullInput then throw (.mk "input file of unknown kind")
       let env := classEnv w fmt pc w.stdin
+      if o.repl then
+        -- init.jq:246-258: `[_inputs] | map(_cli_eval(…)) | _repl({})`: every input is read FIRST, then the program is
+        -- compiled and run on each value; the values become the repl's inputs (nothing is displayed; the virtual
+        -- terminal is at EOF).  A program that does not compile halts at the first value — none, if there is no value.
+        let rawEnv : Env FKind VClass Unit := { env with decode := fun _ => some .str }
+        let (st, vals) : St Unit × List VClass :=
+          if o.nullInput then ({}, [.null])
+          else if o.stringInput then
+            let (st, vs) := collect rawEnv names ({} : St Unit) []
+            (st, if o.slurp then [.str] else (if vs.isEmpty then [] else [.str]))
+          else if o.slurp then ((collect env names ({} : St Unit) []).1, [.arr])
+          else collect env names ({} : St Unit) []
+        if pc = .nc && !vals.isEmpty then
+          return { exit := c.compile, errs := st.errs, fatal := true, defaultMode := false, files := [] }
+        let st := vals.foldl (fun st v => evalOne env v st) st
+        return { exit := st.exit c, errs := st.errs, fatal := false, defaultMode := false, files := [] }
       if o.nullInput then                                                    -- :265 `_query_null`
         let st := evalOne env VClass.null ({} : St Unit)
         return { exit := st.exit c, errs := st.errs, fatal := false, defaultMode := false, files := [] }
@@ -748,6 +768,6 @@ def mainModel (t : Table) (c : Codes) (ot : OTypes) (w : World) (argv : List Str
         return { exit := st.exit c, errs := st.errs, fatal := false, defaultMode := false, files := [] }
       else
         let st := loop env names ({} : St Unit)
-        return { exit := st.exit c, errs := st.errs, fatal := false, defaultMode := true, files := o.filenames }
+        return { exit := st.exit c, errs := st.errs, fatal := false, defaultMode := true, files := o.filenames, pc := pc }
 
 end FqModel.Cli
